@@ -638,7 +638,7 @@ void repetitionsCase(Ctx& ctx)
 	std::string in = dir + "/in"; mc::makeDir(in);
 	rlimit before; ::getrlimit(RLIMIT_NOFILE, &before);
 	rlimit few = before; few.rlim_cur = std::min<rlim_t>(before.rlim_cur, 256); ::setrlimit(RLIMIT_NOFILE, &few);   // at most 256 files open at once
-	std::vector<std::vector<uint8_t>> payloads = { pattern(5, 0x40), pattern(9, 0x60) };
+	std::vector<std::vector<uint8_t>> payloads = { pattern(6, 0x40), pattern(10, 0x60) };
 	mc::writeFile(in + "/aa.txt", payloads[0]); mc::writeFile(in + "/bb.bin", payloads[1]);
 	for (int i = 0; i < 2; ++i) { ref::WavSpec w; w.data = payloads[std::size_t(i)]; mc::writeFile(in + (i ? "/bb.wav" : "/aa.wav"), ref::encodeWav(w)); }
 	auto o = mc::guarded([&] {
